@@ -245,6 +245,14 @@ def run_one(params: dict, chooser, deviations=True) -> dict:
                     add('flags-differ', f"user {user}: get_tracking_flags={flags!r}, fold of the calls={want!r} "
                         f"(calls {[c[1:4] for c in call_log if c[3] == user]}, frames {got})",
                         'C15:call-lost' if want and not flags else 'C15:flags-differ')
+                # a failed attempt is retried after the documented delay while a reason remains
+                adds_u = [w for w in writes if w[1] == 'add' and w[2] == user]
+                if adds_u and ref:
+                    last_eff = effective(len(adds_u) - 1, user)
+                    need = {'silence': 20.0, 'notexists': 600.0, 'ambiguous': 20.0}.get(last_eff)
+                    if need is not None and adds_u[-1][0] + need + 1.0 < world.now():
+                        add('retry-missing', f"user {user}: attempt at t={adds_u[-1][0]} amounted to '{last_eff}', "
+                            f"reasons {sorted(ref)} remain, no retry by t={world.now()}", f'C15:retry-missing:{last_eff}')
                 state = users.get_tracking_state(user)
                 n_w = sum(1 for w in writes if w[1] == 'add' and w[2] == user)
                 last_answer = effective(n_w - 1, user) if n_w else None
@@ -330,14 +338,19 @@ def scenarios(tier: str):
                 if seq[0] == 'tRa' and _canonical(seq) and seq.count('tRa') + seq.count('uRa') >= n - 2:
                     seqs.append(list(seq))
     out = []
-    scripts = [['exists'], ['silence', 'exists'], ['notexists'], ['exists', 'silence', 'exists']]
+    scripts = [['exists'], ['silence', 'exists'], ['notexists'], ['exists', 'silence', 'exists'],
+               ['silence', 'silence', 'exists'], ['silence', 'notexists']]
     for seq in seqs:
         for script in scripts:
+            if len(script) == 3 and script[0] == 'silence' and len(seq) > 2:
+                continue
+            if script == ['silence', 'notexists'] and len(seq) > 1:
+                continue
             if script != ['exists'] and len(seq) > 3 and tier == 'quick':
                 continue
             if script == ['notexists'] and len(seq) > 2:
                 continue
-            horizon = 80.0 if 'notexists' not in script else 640.0
+            horizon = 90.0 if 'notexists' not in script else 660.0
             out.append({'calls': seq, 'script': script, 'horizon': horizon})
     for seq in ([['tRa'], ['tRa', 'uRa'], ['tRa', 'tFb'], ['tRa', 'uRa', 'tRa']]):
         out.append({'calls': seq, 'script': ['exists'], 'loss': True, 'horizon': 40.0})
